@@ -50,6 +50,7 @@ fn main() {
   match cmd.as_str() {
     "chan-seq" => chan_seq(&args),
     "chan-sched" => chan_sched(&args),
+    "chan-sys" => chan_sys(&args),
     "topic-seq" => topic_seq(&args),
     "lock-seq" => lock_seq(&args),
     "loader-sched" => loader_sched(&args),
@@ -156,18 +157,24 @@ fn chan_sched(a: &Args) {
   for (fi, fl) in flavours.iter().enumerate() {
     for r in 0..runs {
       let ru = r as usize;
+      let shape = shapes[(ru / strategies.len()) % shapes.len()].clone();
+      let br = shape == "batchrace";
+      let cap = caps[ru % caps.len()];
+      let many = shape == "manyrx";
       let cfg = sched::Cfg {
         flavour: fl.clone(),
-        cap: caps[ru % caps.len()],
+        cap,
         // contention is where the protocols are subtle: mostly two producers, often two consumers
-        producers: if ru % 3 == 0 { 1 } else { 2 },
-        consumers: 1 + (ru / 3) % 2,
-        items: 1 + (ru / 5) % 3,
+        producers: if br { 2 } else if ru % 3 == 0 { 1 } else { 2 },
+        // "manyrx": more parked receivers than capacity (multi-consumer flavours)
+        consumers: if many { cap + 1 } else if shape == "hold" { 2 } else { 1 + (ru / 3) % 2 },
+        items: if br { 3 + (ru / 5) % 2 } else if many { cap.max(2) } else if shape == "hold" { 2 + (ru / 5) % 2 } else { 1 + (ru / 5) % 3 },
         seed: seed.wrapping_mul(1_000_003).wrapping_add((fi as u64) << 32).wrapping_add(r),
         strategy: strategies[ru % strategies.len()].clone(),
-        shape: shapes[(ru / strategies.len()) % shapes.len()].clone(),
+        shape,
         kf: kf.clone(),
         trace,
+        explicit: None,
       };
       let st = sched::run_scenario(&cfg);
       n += 1;
@@ -186,6 +193,110 @@ fn chan_sched(a: &Args) {
   }
   w.flush().unwrap();
   println!("{}", serde_json::json!({"histories": n, "blocked": blocked, "stuck": stuck, "step_limit": step_limit, "leaked_threads": leaked, "steps": steps}));
+}
+
+/// Systematic exploration of the PCT schedule space of small fixed scenarios: every order of initial
+/// priorities x every set of `d-1` change points `(thread, local step <= smax)`.  The program of a scenario
+/// is fixed by its seed; only the schedule varies, so equal histories are written once.
+fn chan_sys(a: &Args) {
+  let flavours = a.list("flavours", "mpsc_b");
+  let caps: Vec<usize> = a.list("caps", "1").iter().map(|s| s.parse().unwrap()).collect();
+  let shapes = a.list("shapes", "drain");
+  let seeds: Vec<u64> = a.list("scenario-seeds", "1").iter().map(|s| s.parse().unwrap()).collect();
+  let d = a.num("d", 3) as usize;
+  let smax = a.num("smax", 10);
+  let producers = a.num("producers", 2) as usize;
+  let consumers = a.num("consumers", 1) as usize;
+  let items = a.num("items", 1) as usize;
+  let part = a.num("part", 0);
+  let parts = a.num("parts", 1).max(1);
+  let kf = a.list("kf", "");
+  let out = a.get("out", "/dev/stdout");
+  let mut w = std::io::BufWriter::new(std::fs::File::create(&out).expect("create out"));
+  let (mut runs, mut distinct, mut blocked, mut stuck, mut step_limit, mut steps) = (0u64, 0u64, 0u64, 0u64, 0u64, 0u64);
+  let mut idx = 0u64;
+  for fl in &flavours {
+    for &cap in &caps {
+      for shape in &shapes {
+        for &sseed in &seeds {
+          let mut seen: std::collections::HashSet<String> = Default::default();
+          // thread count of this scenario (clone-less handles collapse to one thread per side)
+          let (np, nc) = {
+            let (t0, r0) = dynh::make(fl, cap.max(1));
+            (if t0.info().clone { producers } else { 1 }, if r0.info().clone { consumers } else { 1 })
+          };
+          let n = np + nc;
+          let points: Vec<(usize, u64)> = (0..n).flat_map(|t| (1..=smax).map(move |s| (t, s))).collect();
+          for perm in permutations(n) {
+            let prios: Vec<i64> = perm.iter().map(|&r| 2000 - r as i64).collect();
+            for cps in combinations(&points, d.saturating_sub(1)) {
+              idx += 1;
+              if idx % parts != part {
+                continue;
+              }
+              let cfg = sched::Cfg {
+                flavour: fl.clone(), cap, producers, consumers, items, seed: sseed, strategy: "explicit".into(),
+                shape: shape.clone(), kf: kf.clone(), trace: false, explicit: Some((prios.clone(), cps)),
+              };
+              let st = sched::run_scenario(&cfg);
+              runs += 1;
+              steps += st.outcome.steps;
+              if !st.outcome.blocked.is_empty() && !st.outcome.all_done { blocked += 1; }
+              if st.outcome.stuck { stuck += 1; }
+              if st.outcome.step_limit { step_limit += 1; }
+              let text = st.records.join("\n");
+              if seen.insert(text) {
+                distinct += 1;
+                for r in &st.records {
+                  writeln!(w, "{r}").unwrap();
+                }
+              }
+            }
+          }
+        }
+      }
+    }
+  }
+  w.flush().unwrap();
+  println!("{}", serde_json::json!({"runs": runs, "histories": distinct, "blocked": blocked, "stuck": stuck, "step_limit": step_limit, "steps": steps, "d": d, "smax": smax}));
+}
+
+fn permutations(n: usize) -> Vec<Vec<usize>> {
+  fn rec(cur: &mut Vec<usize>, used: &mut Vec<bool>, n: usize, out: &mut Vec<Vec<usize>>) {
+    if cur.len() == n {
+      out.push(cur.clone());
+      return;
+    }
+    for i in 0..n {
+      if !used[i] {
+        used[i] = true;
+        cur.push(i);
+        rec(cur, used, n, out);
+        cur.pop();
+        used[i] = false;
+      }
+    }
+  }
+  let mut out = vec![];
+  rec(&mut vec![], &mut vec![false; n], n, &mut out);
+  out
+}
+
+fn combinations<T: Clone>(items: &[T], k: usize) -> Vec<Vec<T>> {
+  fn rec<T: Clone>(items: &[T], k: usize, start: usize, cur: &mut Vec<T>, out: &mut Vec<Vec<T>>) {
+    if cur.len() == k {
+      out.push(cur.clone());
+      return;
+    }
+    for i in start..items.len() {
+      cur.push(items[i].clone());
+      rec(items, k, i + 1, cur, out);
+      cur.pop();
+    }
+  }
+  let mut out = vec![];
+  rec(items, k, 0, &mut vec![], &mut out);
+  out
 }
 
 fn topic_seq(a: &Args) {
